@@ -455,6 +455,11 @@ func (fr *frame) instr(instr ssa.Instruction, st *State) bool {
 		so := sortOf(f.Type())
 		fr.vals[x] = Term{fmt.Sprintf("(%s %s)", fr.enc.fldSel(x.X.Type(), f.Name(), so), v.S), so}
 	case *ssa.FieldAddr:
+		if fr.elemValueLval(x.X) != nil {
+			// field of a slice/array element: the element's address is never nil
+			fr.addrOf(x)
+			break
+		}
 		p := fr.val(x.X)
 		fr.oblige("safe", "nil", fr.nextAnchor("field:"+fieldName(x)), st, fmt.Sprintf("(not (= %s 0))", p.S), "nil dereference in field access", nil)
 		fr.addrOf(x)
@@ -958,6 +963,13 @@ func (fr *frame) slice(x *ssa.Slice, st *State) {
 		r := vc.freshConst(fr.prefix+"."+x.Name(), SV)
 		vc.fact(eq(r.S, fmt.Sprintf("(sl_of_arr %s %s %s)", content.S, lo.S, hi.S)))
 		vc.fact(eq(fmt.Sprintf("(sl_cap %s)", r.S), fmt.Sprintf("(- %d %s)", arr.Len(), lo.S)))
+		if x.Low == nil && x.High == nil && arr.Len() <= 8 && sortOf(arr.Elem()) == SV {
+			// a slice literal: name its elements, so that quantified facts
+			// about slice membership have ground terms to match
+			for i := int64(0); i < arr.Len(); i++ {
+				vc.fact(fmt.Sprintf("(= (at_V %s %d) (at_V %s %d))", r.S, i, content.S, i))
+			}
+		}
 		if isByte(arr.Elem()) {
 			base := fr.alloc(x.Type(), st)
 			vc.fact(eq(fmt.Sprintf("(sl_base %s)", r.S), base.S))
